@@ -299,7 +299,12 @@ impl FieldMap {
                     .resolve(FieldKey::Debit, debit, r)?
                     .ok_or_else(|| ImportError::Other("Field debit must exist".to_string()))?;
                 if !credit.is_empty() {
-                    Ok(str_to_comma_decimal(&credit)?.unwrap_or(Decimal::ZERO))
+                    let credit = str_to_comma_decimal(&credit)?.unwrap_or(Decimal::ZERO);
+                    // Some statements fill both cells, and have zero in the credit cell of a debit row.
+                    if credit.is_zero() && !debit.is_empty() {
+                        return Ok(-str_to_comma_decimal(&debit)?.unwrap_or(Decimal::ZERO));
+                    }
+                    Ok(credit)
                 } else if !debit.is_empty() {
                     Ok(-str_to_comma_decimal(&debit)?.unwrap_or(Decimal::ZERO))
                 } else {
